@@ -75,11 +75,29 @@ func H_C02_fragment() {
 	out := &bytes.Buffer{}
 	var rawErr, err error
 	f1, f2 := NewFile("p"), NewFile("p")
-	if nondetChoice("kind", 2) == 0 {
+	kind := nondetChoice("kind", 5)
+	if kind == 0 {
 		s := &Statement{}
 		s.Add(c10Children(n)...)
 		rawErr = s.render(f1, rawBuf, nil)
 		err = s.RenderWithFile(out, f2)
+	} else if kind >= 2 {
+		// statements made of real tokens with arbitrary (possibly nonsensical) text
+		var s *Statement
+		switch kind {
+		case 2:
+			s = Id(nondetString("name"))
+		case 3:
+			s = Lit(nondetString("text"))
+		default:
+			s = Id(nondetString("name")).Op(nondetString("op")).Lit(nondetInt("v", -9, 9))
+		}
+		rawErr = s.render(f1, rawBuf, nil)
+		if nondetBool("via_render") {
+			err = s.Render(out)
+		} else {
+			err = s.RenderWithFile(out, f2)
+		}
 	} else {
 		g := &Group{open: nondetString("open"), close: nondetString("close"), separator: nondetString("sep"), multi: nondetBool("multi"), items: c10Children(n)}
 		rawErr = g.render(f1, rawBuf, nil)
